@@ -8,8 +8,9 @@
 // prints the repo-relative path of every file written to <dir>.
 //
 // conf: {"files":[{"path":"db19/concur.go","imports":true,"chans":true,
-//                  "rangeChans":["em.jobChan","workChan"],"yieldFuncs":"^(Get|Put)$",
-//                  "consts":{"bufSize":"2"}}]}
+//
+//	"rangeChans":["em.jobChan","workChan"],"yieldFuncs":"^(Get|Put)$",
+//	"consts":{"bufSize":"2"}}]}
 package main
 
 import (
@@ -40,7 +41,7 @@ type fileConf struct {
 	YieldFuncs string            `json:"yieldFuncs"`
 	Consts     map[string]string `json:"consts"`
 	ConstToVar []string          `json:"constToVar"` // turn `const x = …` into `var x = …` (scaled-model knobs)
-	KeepTime   bool              `json:"keepTime"` // do not rewrite "time"
+	KeepTime   bool              `json:"keepTime"`   // do not rewrite "time"
 	KeepRand   bool              `json:"keepRand"`
 	Log        bool              `json:"log"` // rewrite "log" to the vlog shim (Fatal* panics instead of exiting)
 }
